@@ -115,14 +115,16 @@ PROPS = {
         ],
     },
     "C09": {
-        "runs": [{"bin": "mon_ser"}, {"bin": "mon_ser", "variant": "rel", "tiers": ["thorough"]}],
+        "runs": [{"bin": "mon_ser"}, {"bin": "mon_ser", "variant": "rel", "tiers": ["thorough"]},
+                 {"bin": "mon_ser", "variant": "miri", "tiers": ["thorough"], "args": ["--miri-slice", "1", "--jobs", "8"]}],
         "assumptions": BASE_ASSUME + [
             "expected bytes come from an oracle-side encoder of the documented format (serialize/src/flags.rs, ec */serialization_flags.rs, bls12_381 zcash layout); the repository's documented format is the specification",
             "elements are built/decoded from raw Montgomery limbs by the oracle; uniqueness is demanded of field encodings only (DESIGN §7)",
             "points on shipped curves are produced with the group law / harness double-and-add (C03/C04) and unchecked lifts (C11)"],
     },
     "C10": {
-        "runs": [{"bin": "mon_ser"}, {"bin": "mon_ser", "variant": "rel", "tiers": ["thorough"]}],
+        "runs": [{"bin": "mon_ser"}, {"bin": "mon_ser", "variant": "rel", "tiers": ["thorough"]},
+                 {"bin": "mon_ser", "variant": "miri", "tiers": ["thorough"], "args": ["--miri-slice", "1", "--jobs", "8"]}],
         "assumptions": BASE_ASSUME + [
             "an accepted point is re-checked with plain field operations (C01/C02) and r*P by a harness double-and-add over the group's own +/double (C03); toy curves: plain u64 enumeration",
             "infinity flag with a non-zero payload and redundant sign flags are not required to be rejected (point encodings need not be unique); incomplete twisted-Edwards laws: an exceptional case (Z = 0) classifies the point as outside the subgroup"],
